@@ -197,3 +197,44 @@ async fn run_mode(cases: usize, seed: u64, scan: bool) {
         }
     }
 }
+
+/// Reproduction of the listed finding dbvault `insert_secret [other_folders_unchanged]`: two folders A and B
+/// of one account in ONE database; the same secret id is created in A and then in B.  `folder_secrets.identifier`
+/// is UNIQUE over the whole table and `insert_secret_by_row_id` is an upsert that also sets `folder_id`, so the
+/// second create moves the row: A no longer has the secret.  Exit 1 (found) while the defect is present.
+pub async fn repro_db_shared_secret_id() {
+    let dir = tempfile::tempdir().unwrap();
+    let client = sos_database::open_memory().await.unwrap();
+    let paths = Paths::new_client(dir.path());
+    let account = AccountId::random();
+    let mut r = Rng(7);
+    let mut folders = vec![];
+    let arow = AccountRow::new_insert(&account, "w".to_owned()).unwrap();
+    let account_row_id = client.conn_mut(move |conn| { Ok(AccountEntity::new(&conn).insert(&arow)?) }).await.unwrap();
+    for k in 0..2 {
+        let password: secrecy::SecretString = format!("pw-{}", k).into();
+        let vault = VaultBuilder::new().build(BuilderCredentials::Password(password.clone(), None)).await.unwrap();
+        let folder_id: VaultId = *vault.id();
+        let frow = FolderRow::new_insert(&vault).await.unwrap();
+        client.conn_mut(move |conn| { FolderEntity::new(&conn).insert_folder(account_row_id, &frow)?; Ok(()) }).await.unwrap();
+        let mut f = Folder::new(BackendTarget::Database(paths.clone(), client.clone()), &account, &folder_id).await.unwrap();
+        let key: AccessKey = password.into();
+        f.unlock(&key).await.unwrap();
+        folders.push((f, folder_id, key));
+    }
+    let id = uuid::Uuid::from_bytes(r.arr());
+    let (m, s, la, _) = note(&mut r);
+    folders[0].0.create_secret(&SecretRow::new(id, m, s)).await.unwrap();
+    let (m, s, _lb, _) = note(&mut r);
+    folders[1].0.create_secret(&SecretRow::new(id, m, s)).await.unwrap();
+    // re-open A from storage
+    let (_, a_id, a_key) = &folders[0];
+    let mut a = Folder::new(BackendTarget::Database(paths.clone(), client.clone()), &account, a_id).await.unwrap();
+    a.unlock(a_key).await.unwrap();
+    let listed = { let ap = a.access_point(); let ap = ap.lock().await; let ks: Vec<uuid::Uuid> = ap.vault().keys().copied().collect(); ks.contains(&id) };
+    if !listed {
+        println!("{{\"found\":true,\"check\":\"db-shared-secret-id\",\"history\":\"A.create_secret(X,{:?}); B.create_secret(X,..); reopen A\",\"observed\":\"A no longer lists X (the row was moved to B by the upsert)\"}}", la);
+        std::process::exit(1);
+    }
+    println!("{{\"found\":false,\"check\":\"db-shared-secret-id\"}}");
+}
